@@ -1090,6 +1090,8 @@ def check_corruption(case, ctx):
     ctx.label("mut-" + m["kind"], "loader-" + case["loader"])
     if m["kind"] in ("toplevel", "element", "wrong-type"):
         ctx.label("wrong-type")
+    if m.get("short"):
+        ctx.label("times-with-fewer-than-two-elements")
     if m["kind"] == "truncate":
         ctx.label("truncated")
     root = tempfile.mkdtemp(prefix="vp-c15-")
@@ -1851,8 +1853,18 @@ def mutations(draw):
         "none", "raw", "raw", "toplevel", "toplevel", "element", "element",
         "missing-key", "missing-key", "wrong-type", "wrong-type", "wrong-type",
         "bad-time", "bad-time", "null-time", "truncate", "truncate",
-        "directory", "missing", "dup-path", "extra-key"]))
+        "directory", "missing", "dup-path", "extra-key", "short-times",
+        "short-times"]))
     m = {"kind": kind}
+    if kind == "short-times":
+        # a complete entry whose times hold fewer than two elements
+        m["kind"] = kind = "wrong-type"
+        m["index"] = draw(st.integers(0, 40))
+        m["key"] = "times"
+        m["value"] = draw(st.sampled_from([[], [GOOD], "", "a", [None],
+                                           [[GOOD, GOOD]]]))
+        m["short"] = True
+        return m
     if kind == "raw":
         m["data"] = draw(st.one_of(
             st.binary(max_size=40),
